@@ -27,7 +27,10 @@ import numpy as np
 
 from ..common import call_impl, q
 
-RULE = ("networks of 1-5 FDMod modules (kinds lin/mul/dot/sq/fan/cat, optional nesting, basic-slice inputs, slice outputs into "
+RULE = ("networks of 1-5 FDMod modules (kinds lin/mul/dot/sq/fan/cat; outputs handed out as views, fresh arrays, a reused preallocated "
+        "buffer (same object every call), a view of a reused internal buffer, or written into caller-owned containers through slice "
+        "outputs; modules optionally keeping a reference to their input arrays; input states optionally views of larger arrays; "
+        "optional nesting, basic-slice inputs, slice outputs into "
         "containers, sparse-matrix terminal outputs, wrong-sensitivity variants of lin/sq/cat), real or complex dyadic data, "
         "inputs 1-D / matrix / 0-d / Python scalar with zero entries, plain Module or Network, fromsig/tosig None or random subsets "
         "(sources, intermediates), dx=2^-k, relative_dx, keep_zero_structure, seeds use_df/ones/recorded rand, stale sensitivities, "
@@ -108,7 +111,15 @@ def fdmod_class():
         raise RuntimeError(k)
 
     class FDMod(pm.Module):
-        def _prepare(self, kind, out_shapes, A=None, n=None, sparse=None, wrong=None, cx=False):
+        def _prepare(self, kind, out_shapes, A=None, n=None, sparse=None, wrong=None, cx=False, store=None, keepref=False):
+            # store[i]: how output i is handed out - "view" (a view of a temporary), "fresh" (a new array owning its data),
+            # "buf" (written into a preallocated buffer, the SAME array object is returned on every call), "bufview" (a view of
+            # an internal, larger buffer that is reused on every call);  keepref: the module keeps a reference to its input
+            # arrays and reads them in _sensitivity (legal: they are the states it was called with)
+            self.store = list(store) if store is not None else ["view"] * len(out_shapes)
+            self.keepref = keepref
+            self.last_inp = None
+            self.buf = {}
             self.kind = kind
             self.out_shapes = [tuple(s) for s in out_shapes]
             self.out_sizes = [int(np.prod(s)) for s in self.out_shapes]
@@ -133,13 +144,35 @@ def fdmod_class():
             y = kind_f(self.kind, x, self.A, self.k)
             c = np.concatenate([[0], np.cumsum(self.out_sizes)]).astype(int)
             out = []
+            if self.keepref:
+                self.last_inp = list(inp)
             for i, shp in enumerate(self.out_shapes):
                 v = y[c[i]:c[i + 1]].reshape(shp)
-                out.append(sp.csr_matrix(v) if self.sparse[i] else v)
+                mode = self.store[i]
+                if self.sparse[i]:
+                    out.append(sp.csr_matrix(v))          # re-created on every call
+                elif mode == "fresh":
+                    o = np.empty(shp, dtype=v.dtype)
+                    o[...] = v
+                    out.append(o)
+                elif mode == "buf":
+                    if i not in self.buf:
+                        self.buf[i] = np.empty(shp, dtype=self.dt)
+                    self.buf[i][...] = v
+                    out.append(self.buf[i])
+                elif mode == "bufview":
+                    z = self.out_sizes[i]
+                    if i not in self.buf:
+                        self.buf[i] = np.zeros(z + 2, dtype=self.dt)
+                    w = self.buf[i][1:1 + z]
+                    w[...] = v.ravel()
+                    out.append(w.reshape(shp))
+                else:
+                    out.append(v)
             return out
 
         def _sensitivity(self, *dy):
-            inp = [s.state for s in self.sig_in]
+            inp = self.last_inp if (self.keepref and self.last_inp is not None) else [s.state for s in self.sig_in]
             if any(a is None for a in inp):
                 raise TypeError("FDMod: input state is None")
             x = self._cat(inp)
@@ -284,6 +317,8 @@ class Gen:
         if rng.random() < 0.12 and shape != "py":
             sens = [num(rng, self.cx) for _ in range(ln)]       # stale sensitivity
         b = self.new_base(shape, st, keep, sens)
+        if shape != "py" and len(shape) >= 1 and not spfmt and rng.random() < 0.3:
+            self.bases[b]["inview"] = [rng.randint(0, 2), rng.randint(0, 2)]     # state = view of a larger array (pad before/after)
         if spfmt:
             # a sparse-matrix source: a non-empty set of stored positions (explicit zeros allowed), zero elsewhere
             pos = rng.sample(range(ln), rng.randint(1, ln))
@@ -401,7 +436,9 @@ class Gen:
             outs.append(sid)
             shapes.append(shape)
             sparse.append(spm)
-        m.update({"ins": ins, "outs": outs, "osz": sizes, "oshape": shapes, "sparse": sparse})
+        m.update({"ins": ins, "outs": outs, "osz": sizes, "oshape": shapes, "sparse": sparse,
+                  "store": [rng.choice(["view", "fresh", "buf", "buf", "bufview"]) for _ in sizes],
+                  "keepref": rng.random() < 0.3})
         self.mods.append(m)
 
     def make_wrong(self):
@@ -514,6 +551,9 @@ def make_case(rng, quick, stream="main"):
         spec["tosig"] = None
     else:
         cand = [s for m in mods for s in m["outs"]]
+        # a caller-owned container that modules fill through slice outputs, taken as a whole as output of interest
+        for b_ in sorted({g.sigs[s]["base"] for s in cand if g.sigs[s]["idx"] is not None}):
+            cand.append(g.sig(b_, None))
         k = rng.randint(1, min(2, len(cand)))
         spec["tosig"] = list(dict.fromkeys(rng.sample(cand, k)))
     deg = max([g.deg[b] for b in g.deg] + [1])
@@ -598,8 +638,16 @@ def _build(spec):
     FDMod = fdmod_class()
     cx = spec["cx"]
     bases = []
+    bigs = {}
+    allmods = []
     for i, b in enumerate(spec["bases"]):
         st = None if b["state"] is None else _arr(b["state"], b["shape"], cx)
+        if st is not None and b.get("inview") and isinstance(st, np.ndarray):
+            p0, p1 = b["inview"]
+            big = np.full(p0 + st.size + p1, 7.5, dtype=st.dtype)
+            big[p0:p0 + st.size] = st.ravel()
+            st = big[p0:p0 + st.size].reshape(st.shape)          # a C-contiguous view that does not own its data
+            bigs[i] = big
         if st is not None and b.get("spfmt"):
             import scipy.sparse as sp
             nc = b["shape"][1]
@@ -635,10 +683,14 @@ def _build(spec):
                     w = dict(w)
                     w["A"] = [[complex(v[0], v[1]) if cx else v[0] for v in row] for row in w["A"]]
                 mods.append(FDMod([sigs[i] for i in it["ins"]], [sigs[i] for i in it["outs"]], it["k"], it["oshape"],
-                                  A=A, n=it.get("n"), sparse=it["sparse"], wrong=w, cx=cx))
+                                  A=A, n=it.get("n"), sparse=it["sparse"], wrong=w, cx=cx, store=it.get("store"),
+                                  keepref=it.get("keepref", False)))
+                allmods.append(mods[-1])
         return mods
     mods = mk(spec["prog"])
     blk = pm.Network(mods) if spec["isnet"] else mods[0]
+    blk._c19_bigs = bigs
+    blk._c19_mods = allmods
     return blk, bases, sigs
 
 
@@ -699,7 +751,8 @@ def run_impl(spec):
         tosig = None if spec["tosig"] is None else [sigs[i] for i in spec["tosig"]]
         inps = [ids[id(s)] for s in (blk.sig_in if fromsig is None else fromsig)]
         outps = [ids[id(s)] for s in (blk.sig_out if tosig is None else tosig)]
-        out = {"inps": inps, "outps": outps, "raw_before": raw_states(bases)}
+        out = {"inps": inps, "outps": outps, "raw_before": raw_states(bases),
+               "bigs_before": {k: v.tobytes() for k, v in blk._c19_bigs.items()}}
         if spec["isnet"]:
             out["sigin"] = sorted(ids[id(s)] for s in blk.sig_in)
             out["sigout"] = sorted(ids[id(s)] for s in blk.sig_out)
@@ -736,6 +789,17 @@ def run_impl(spec):
             out["msg"] = r[2][:300]
         out.update(snapshot(bases))
         out["raw_after"] = raw_states(bases)
+        out["bigs_after"] = {k: v.tobytes() for k, v in blk._c19_bigs.items()}
+        out["view_ok"] = all((not isinstance(bases[k].state, np.ndarray)) or np.shares_memory(bases[k].state, v)
+                             for k, v in blk._c19_bigs.items())
+        # a module that kept a reference to a plain ndarray input must still see the state of that signal
+        out["ref_bad"] = None
+        for mi, m_ in enumerate(blk._c19_mods):
+            if m_.keepref and m_.last_inp is not None:
+                for s_, ref in zip(m_.sig_in, m_.last_inp):
+                    if type(s_) is pm.Signal and isinstance(ref, np.ndarray) and isinstance(s_.state, np.ndarray):
+                        if not (ref is s_.state or (ref.shape == s_.state.shape and ref.tobytes() == s_.state.tobytes())):
+                            out["ref_bad"] = {"module": mi, "signal": s_.tag}
         out["cxflags"] = [None if b.state is None else bool(np.iscomplexobj(b.state)) for b in bases]
         out["sp_order_ok"] = True
         for b, bd in zip(bases, spec["bases"]):
@@ -1037,6 +1101,14 @@ def oracle(spec, impl=None, finding=False):
         if b not in written and impl["raw_before"][b] != impl["raw_after"][b]:
             return ("a state that finite_difference should not change was not restored exactly",
                     {"base": b, "before": str(impl["raw_before"][b])[:200], "after": str(impl["raw_after"][b])[:200]})
+    for k in impl.get("bigs_before", {}):
+        if impl["bigs_before"][k] != impl["bigs_after"][k] and k not in written:
+            return ("the array an input state is a view of was changed by finite_difference", {"base": k})
+    if not impl.get("view_ok", True):
+        return ("an input state that was a view of a larger array was replaced by another array", {})
+    if impl.get("ref_bad") and not overwritten_input(spec, inps, outps):
+        return ("a module that kept a reference to its input array no longer sees the state of that signal",
+                impl["ref_bad"])
     # -- no sensitivity left set on the examined sub-network (entries of a container that no signal of the sub-network
     #    covers keep whatever stale value they had before the call)
     sub = sub_bases(spec, impl) or set()
@@ -1244,9 +1316,19 @@ def compare_case(ctx, stream, spec, impl, m, judge=True):
     ctx.branch("wrong=%s" % spec["wrong"])
     for mm in flat_mods(spec["prog"]):
         ctx.branch("kind." + mm["k"])
+        for st_, sp_ in zip(mm.get("store", []), mm["sparse"]):
+            ctx.branch("outstore." + ("sparse-recreated" if sp_ else st_))
+        if mm.get("keepref"):
+            ctx.branch("module_keeps_input_reference")
         if any(mm["sparse"]):
             ctx.branch("sparse_output")
+    for s in impl["outps"]:
+        if spec["sigs"][s]["idx"] is None and any(s2["base"] == spec["sigs"][s]["base"] and s2["idx"] is not None
+                                                   for m_ in flat_mods(spec["prog"]) for s2 in [spec["sigs"][o_] for o_ in m_["outs"]]):
+            ctx.branch("output.container_filled_through_slices")
     for s in impl["inps"]:
+        if spec["bases"][spec["sigs"][s]["base"]].get("inview"):
+            ctx.branch("input.state_is_view_of_larger_array")
         sh = spec["bases"][spec["sigs"][s]["base"]]["shape"]
         sl = spec["sigs"][s]["sl"]
         ctx.branch("input." + ("pyscalar" if sh == "py" else ("sparse-" + spec["bases"][spec["sigs"][s]["base"]]["spfmt"])
